@@ -78,6 +78,13 @@ def run(tier, only=None):
                     e2.update({"VERIF_KB": "1" if tier == "quick" else "2", "VERIF_SB": "1", "VERIF_NONE_STEP": "0" if tier == "quick" else "1"})      # six symbolic fields: smaller ranges so that the paths can be exhausted
                 conds.append(runner.Cond(HF, f, (2 * T if f != "h_gather_slice_slice" else 6 * T), name="%s[%s,%s]" % (f, sh, kind), env=e2,
                                          key="gather-" + f[9:]))
+    if tier == "quick":
+        # a non-square shape for the two-axis gathers (anything keyed on the slice alone, not on the axis, needs h != w)
+        env = {"VERIF_SHAPE": "2x3", "VERIF_KIND": "B", "VERIF_KB": "1", "VERIF_SB": "1", "VERIF_NONE_STEP": "0"}
+        conds.append(runner.Cond(HF, "h_gather_slice_slice", 6 * T, name="h_gather_slice_slice[2x3,B]", env=env, key="gather-slice_slice"))
+        env = {"VERIF_SHAPE": "3x2", "VERIF_KIND": "B", "VERIF_KB": "3", "VERIF_SB": "1"}
+        conds.append(runner.Cond(HF, "h_gather_int_slice", 2 * T, name="h_gather_int_slice[3x2,B]", env=env, key="gather-int_slice"))
+        conds.append(runner.Cond(HF, "h_gather_slice_int", 2 * T, name="h_gather_slice_int[3x2,B]", env=env, key="gather-slice_int"))
     if only:
         conds = [c for c in conds if only in c.name]
     runner.run_conditions(rep, conds)
